@@ -428,6 +428,7 @@ class C10(PropCheck):
     modules = ('WpModel.Props.C10', 'WpModel.Props.C10Pages', 'WpModel.Props.C10Pref', 'WpModel.Props.C10Heights',
                'WpModel.Props.C10Split', 'WpModel.Props.C10CellWidth', 'WpModel.Props.C10Draw',
                'WpModel.Props.C10SplitBorders', 'WpModel.Props.C10Groups', 'WpModel.Props.C10Painted',
+               'WpModel.Props.C10Document',
                'WpModel.Witness.C10')
     trusted_base = (
         'modelled, not verified: fixed_table_layout, auto_table_layout (given the preferred-width tuple), '
@@ -1255,7 +1256,13 @@ MANIFEST = {
             'every collapsed fragment; the split bookkeeping of table_layout (skipped_rows, border_top_width, '
             'skip_cell_border flags, position of continued cells under a repeated header) with '
             'skipped_is_flat_index, resumed_row_painted, reserved_top_is_painted_top, split_cell_below_header '
-            '(Props/C10SplitBorders); fixed_nonneg at full strength after the repair 5d962d2.',
+            '(Props/C10SplitBorders); fixed_nonneg at full strength after the repair 5d962d2. Rounds 4-5: '
+            'wrap_table\'s choice of header / footer / body groups (groups_once, header_is_first, '
+            'footer_is_first, bodies_in_source_order, Props/C10Groups); painted_is_winner (every painted line of '
+            'an unsplit collapsed table is the CSS 2.1 17.6.2 winner, Props/C10Painted); document_rows_once '
+            '(wrap_table composed with table_layout and the page loop: every row of every group that is not the '
+            'first thead / tfoot is laid out exactly once, in source order, over any page sequence, '
+            'Props/C10Document).',
     'note': 'Trusted: Lean kernel; the AST/graph translator of the border style list; the harness (mock boxes, call '
             'recorders around the real functions during renders, float results snapped to the rational model within '
             '1e-9 relative and counted). Not modelled: table_and_columns_preferred_widths (its result is an input of the '
